@@ -390,7 +390,14 @@ async fn run_ops(ops: Vec<Op>, policy: u8, spec_exec: Option<(usize, u64)>, sequ
         pb = pb.speculative_execution_policy(Some(Arc::new(SimpleSpeculativeExecutionPolicy { max_retry_count: max, retry_interval: Duration::from_millis(interval) })));
     }
     let mut out = CaseOut { results: HashMap::new(), frames: HashMap::new(), decisions: HashMap::new(), ret_seq: HashMap::new(), violations: vec![], build_error: None, hung: vec![] };
-    let session = match connect(&cluster, |b| b.default_execution_profile_handle(pb.build().into_handle())).await {
+    // the profile in effect is, in two cases of three, one DERIVED from the configured one (to_builder on the
+    // profile / pointee_to_builder on the handle): a derived profile keeps every setting it does not override
+    let handle = match ops.len() % 3 {
+        0 => pb.build().into_handle(),
+        1 => pb.build().to_builder().request_timeout(None).build().into_handle(),
+        _ => pb.build().into_handle().pointee_to_builder().request_timeout(None).build().into_handle(),
+    };
+    let session = match connect(&cluster, |b| b.default_execution_profile_handle(handle)).await {
         Ok(s) => Arc::new(s),
         Err(e) => {
             out.build_error = Some(e);
